@@ -25,7 +25,22 @@ AA_AMBIG = {a: a for a in AA}
 AA_AMBIG.update({"B": "DN", "Z": "EQ", "X": AA, "-": AA, "?": AA})
 PUR, PYR = set("AG"), set("CT")
 STANDARD_CODE = "FFLLSSSSYY**CC*WLLLLPPPPHHQQRRRRIIIMTTTTNNKKSSRRVVVVAAAADDEEGGGG"
-CODON_AA = {a + b + c: STANDARD_CODE[16 * i + 4 * j + k] for i, a in enumerate("TCAG") for j, b in enumerate("TCAG") for k, c in enumerate("TCAG")}
+NCBI_TABLES = {  # published NCBI translation tables (data), TCAG order
+    1: STANDARD_CODE,
+    2: "FFLLSSSSYY**CCWWLLLLPPPPHHQQRRRRIIMMTTTTNNKKSS**VVVVAAAADDEEGGGG",
+    4: "FFLLSSSSYY**CCWWLLLLPPPPHHQQRRRRIIIMTTTTNNKKSSRRVVVVAAAADDEEGGGG",
+    5: "FFLLSSSSYY**CCWWLLLLPPPPHHQQRRRRIIMMTTTTNNKKSSSSVVVVAAAADDEEGGGG",
+    6: "FFLLSSSSYYQQCC*WLLLLPPPPHHQQRRRRIIIMTTTTNNKKSSRRVVVVAAAADDEEGGGG",
+    9: "FFLLSSSSYY**CCWWLLLLPPPPHHQQRRRRIIIMTTTTNNNKSSSSVVVVAAAADDEEGGGG",
+}
+
+
+def codon_table(gc=1):
+    t = NCBI_TABLES[gc]
+    return {a + b + c: t[16 * i + 4 * j + k] for i, a in enumerate("TCAG") for j, b in enumerate("TCAG") for k, c in enumerate("TCAG")}
+
+
+CODON_AA = codon_table(1)
 SENSE = [c for c in CODON_AA if CODON_AA[c] != "*"]
 
 
@@ -112,11 +127,13 @@ def shape_class(node):
 # alignments
 
 
-def random_alignment(rng, names, kind, ncols, ambig=0.0, motif_len=1):
+def random_alignment(rng, names, kind, ncols, ambig=0.0, motif_len=1, gc=1):
     if kind == "protein":
         base, amb = AA, "BZX-?"
         cols = [[rng.choice(amb) if rng.random() < ambig else rng.choice(base) for _ in names] for _ in range(ncols)]
     elif kind == "codon":
+        CODON_AA = codon_table(gc)  # noqa: N806 - shadows the standard-code table for this alignment
+        SENSE = [c for c in CODON_AA if CODON_AA[c] != "*"]  # noqa: N806
         cols = []
         for _ in range(ncols):
             col = []
@@ -150,7 +167,7 @@ def random_alignment(rng, names, kind, ncols, ambig=0.0, motif_len=1):
         if kind == "protein":
             cols[0] = [rng.choice(AA) for _ in names]
         elif kind == "codon":
-            cols[0] = [rng.choice(SENSE) for _ in names]
+            cols[0] = [rng.choice([c for c, a in codon_table(gc).items() if a != "*"]) for _ in names]
         else:
             cols[0] = ["".join(rng.choice("ACGT") for _ in range(motif_len)) for _ in names]
     # a few duplicated columns so de-duplication/weights are exercised
@@ -320,7 +337,7 @@ def _nuc_rate(model, params, a, b):
     raise KeyError(model)
 
 
-def build_Q(model, states, params, mprobs, sm=None):
+def build_Q(model, states, params, mprobs, sm=None, gc=1):
     """calibrated Q (numpy, in `states` order) and the state ('word') probabilities used for calibration.
 
     mprobs: dict over states, or over monomers for the monomer-frequency models.
@@ -328,6 +345,7 @@ def build_Q(model, states, params, mprobs, sm=None):
     n = len(states)
     kind = kind_of(model)
     wl = len(states[0])
+    aa_of = codon_table(gc) if kind == "codon" else None
     if mprob_kind(model) == "monomer":
         mono = mprobs
         wp = np.array([np.prod([mono[ch] for ch in s]) for s in states])
@@ -361,7 +379,7 @@ def build_Q(model, states, params, mprobs, sm=None):
                     continue
                 p = diff[0]
                 r = _nuc_rate(model, params, x[p], y[p])
-                if kind == "codon" and CODON_AA[x] != CODON_AA[y]:
+                if kind == "codon" and aa_of[x] != aa_of[y]:
                     r *= params["omega"]
                 for name, mask in extra.items():
                     if mask[i, j]:
@@ -447,12 +465,12 @@ def random_mprobs(rng, model, states):
     return dict(zip(keys, [float(x) for x in v]))
 
 
-def model_states(model, sm=None):
-    sm = sm or make_model(model)
+def model_states(model, sm=None, gc=1):
+    sm = sm or (make_model(model, gc=gc) if gc != 1 else make_model(model))
     return [str(s) for s in sm.get_alphabet()]
 
 
-def gen_problem(rng, model, ntips=None, ncols=None, ambig=None, scoped=False, bins=1, expm_setting=None, zero_frac=0.05, rooted=None, polytomy=0.25):
+def gen_problem(rng, model, ntips=None, ncols=None, ambig=None, scoped=False, bins=1, expm_setting=None, zero_frac=0.05, rooted=None, polytomy=0.25, hmm=False):
     kind = kind_of(model)
     big = kind in ("codon", "protein")
     ntips = ntips or rng.randint(2, 5 if big else 7)
@@ -461,8 +479,11 @@ def gen_problem(rng, model, ntips=None, ncols=None, ambig=None, scoped=False, bi
     ncols = ncols or rng.randint(1, 12 if big else 40)
     ambig = rng.choice([0.0, 0.1, 0.3]) if ambig is None else ambig
     ml = {"nuc": 1, "protein": 1, "codon": 3, "dinuc": 2}[kind]
-    aln = random_alignment(rng, names, "codon" if kind == "codon" else ("protein" if kind == "protein" else "nuc"), ncols, ambig, motif_len=ml)
-    states = model_states(model)
+    gc = 1
+    if kind == "codon" and not model.startswith("H04") and rng.random() < 0.35:
+        gc = rng.choice([2, 4, 5, 6, 9])  # a non-standard genetic code: different sense codons and synonymy
+    aln = random_alignment(rng, names, "codon" if kind == "codon" else ("protein" if kind == "protein" else "nuc"), ncols, ambig, motif_len=ml, gc=gc)
+    states = model_states(model, gc=gc)
     prob = {
         "model": model,
         "tree": tree,
@@ -472,6 +493,7 @@ def gen_problem(rng, model, ntips=None, ncols=None, ambig=None, scoped=False, bi
         "edge_params": {},
         "bins": bins,
         "expm": expm_setting,
+        "gc": gc,
     }
     if scoped and rate_param_names(model):
         # per-edge scopes: some parameter gets different values on disjoint edge groups
@@ -487,6 +509,10 @@ def gen_problem(rng, model, ntips=None, ncols=None, ambig=None, scoped=False, bi
         prob["rate_shape"] = round(rng.uniform(0.2, 3.0), 4)
         if rng.random() < 0.6:  # unequal bin probabilities
             prob["bprobs"] = [float(x) for x in dirichlet(rng, bins, 0.1)]
+        if hmm:
+            # auto-correlated rate classes along the alignment (sites_independent=False): the bins are grouped into
+            # two patches whose sequence along the sites is a Markov chain with switch probability bin_switch
+            prob["hmm"] = {"switch": round(rng.choice([1.0, rng.uniform(0.02, 0.98)]), 4)}
     return prob
 
 
@@ -502,6 +528,8 @@ def build_lf(prob, tree_newick=None, aln=None, sm=None):
     kw = {}
     if prob.get("bins", 1) > 1:
         kw.update(ordered_param="rate", distribution="gamma")
+    if prob.get("gc", 1) != 1:
+        kw["gc"] = prob["gc"]
     sm = sm or make_model(model, **kw)
     # zero lengths in a newick string are replaced by default_length (documented), so the tree is given
     # placeholder lengths and every length is then set explicitly
@@ -509,6 +537,8 @@ def build_lf(prob, tree_newick=None, aln=None, sm=None):
     lfkw = {}
     if prob.get("bins", 1) > 1:
         lfkw["bins"] = prob["bins"]
+        if prob.get("hmm"):
+            lfkw["sites_independent"] = False
     if prob.get("expm"):
         lfkw["expm"] = prob["expm"]
     lf = sm.make_likelihood_function(tree, **lfkw)
@@ -532,7 +562,34 @@ def build_lf(prob, tree_newick=None, aln=None, sm=None):
         lf.set_param_rule("rate_shape", init=prob["rate_shape"])
         if prob.get("bprobs"):
             lf.set_param_rule("bprobs", init=np.array(prob["bprobs"]))
+        if prob.get("hmm"):
+            lf.set_param_rule("bin_switch", init=prob["hmm"]["switch"])
     return lf
+
+
+def hmm_forward_lnL(per_bin_cols, bprobs, switch):
+    """log-likelihood of the two-patch phylo-HMM: bins are split into a first and second half (the patches); the patch
+    of a site follows a Markov chain with stationary probabilities p_k = sum of bprobs in patch k and transition
+    matrix T = (1-s) I + s 1 p^T; given the patch the bin is drawn with probability bprob_b / p_k.
+    per_bin_cols: array (bins, sites) of ordinary column likelihoods per bin."""
+    per_bin_cols = np.asarray(per_bin_cols, dtype=float)
+    bprobs = np.asarray(bprobs, dtype=float)
+    nb = len(bprobs)
+    half = nb // 2
+    patch = np.array([0] * half + [1] * (nb - half))
+    p = np.array([bprobs[patch == k].sum() for k in (0, 1)])
+    emit = np.array([(bprobs[patch == k] / p[k]) @ per_bin_cols[patch == k] for k in (0, 1)])  # (2, sites)
+    T = (1 - switch) * np.eye(2) + switch * np.outer(np.ones(2), p)
+    f = p * emit[:, 0]
+    lnL = 0.0
+    for k in range(1, emit.shape[1]):
+        c = f.sum()
+        if c <= 0:
+            return float("-inf")
+        lnL += math.log(c)
+        f = ((f / c) @ T) * emit[:, k]
+    c = f.sum()
+    return lnL + (math.log(c) if c > 0 else float("-inf"))
 
 
 def edge_param_values(prob, edge_name):
